@@ -18,7 +18,7 @@ func init() {
 		ID: "C13",
 		Explanation: "Structural necessary conditions of 'all storage backends and layers implement one key/value and listing contract' — the parts of the contract that are visible in the shape of the layers, not the contract's equalities: " +
 			"(1) prefix views return keys relative to the view (the entry read through a view carries the truncated key; confinement itself is C12.2, evaluated there); " +
-			"(2) layer transparency, as a family rule over EVERY storage-shaped type in the program (any type with List and ListPage of the storage signature: cache, key-encoding check, latency/error injectors, write notifier, their transactions, physical/logical views, barrier views, storage access shims, inmem/raft front ends, the plugin GRPC server): each Get/Put/Delete/List/ListPage that delegates to a same-named operation hands on the caller's key (or the layer's own key transform of it), 'after' and 'limit' unchanged, hands on the caller's value, reports success only across the delegated operation's success, returns what the delegated operation returned, and List(p) is ListPage(p, \"\", -1) wherever it is implemented by delegation to ListPage; " +
+			"(2) layer transparency, as a family rule over EVERY storage-shaped type in the program (any type with List and ListPage of the storage signature: cache, key-encoding check, latency/error injectors, write notifier, their transactions, physical/logical views, barrier views, storage access shims, inmem/raft front ends, the plugin GRPC server): each Get/Put/Delete/List/ListPage that delegates to a same-named operation hands on the caller's key (or the layer's own key transform of it), 'after' and 'limit' unchanged, hands on the caller's value, reports success only across the delegated operation's success, returns what the delegated operation returned, all delegating operations of one layer type address the same wrapped store (one access path from the receiver: a transaction layer's Get reads the transaction its Put writes), and List(p) is ListPage(p, \"\", -1) wherever it is implemented by delegation to ListPage; " +
 			"(3) sibling agreement of the paginated seek in the raft backend: every bolt cursor Seek whose position derives from filepath.Join(prefix, after) lies behind 'after is non-empty and the joined position still starts with the prefix, else seek to the prefix' — in the plain listing and in the transactional one alike (F4, repaired by 54d7235); the iteration stops at the first key without the prefix; list verification replays through the plain listing; the two paginate-by-slicing implementations (plugin GRPC client, keysutil encrypted storage) agree on 'skip the element equal to after' and 'limit applies only when positive'; " +
 			"(4) the recursive scan/clear helpers list the view they were given page by page with 'after' taken from the previous page, descend only into entries with a trailing slash, report only the others, build every path as directory + listed name, and delete exactly the reported paths from the same view; " +
 			"(5) the read cache is filled and invalidated only on the success edge of the wrapped operation, under the per-key lock, under the operation's key; a transaction's writes invalidate the parent cache only after the commit succeeded.",
@@ -109,6 +109,7 @@ func runC13(c *eng.Ctx, thorough bool) {
 		"sdkplugin.(*GRPCStorageServer)": "the plugin GRPC server reports the delegated operation's error inside the reply message (pb.ErrToString), its Go error result is always nil",
 	}
 	nDeleg := 0
+	delegates := map[string]map[string][]c13Delegate{}
 	for _, t := range typs {
 		for _, m := range c13Ops {
 			f := byType[t][m]
@@ -161,8 +162,15 @@ func runC13(c *eng.Ctx, thorough bool) {
 			}
 			nDeleg++
 			c13Delegating(c, t, m, f, deleg, errInReply[t] != "")
+			if delegates[t] == nil {
+				delegates[t] = map[string][]c13Delegate{}
+			}
+			for _, cl := range deleg {
+				delegates[t][m] = append(delegates[t][m], c13Delegate{f, cl, c13DelegateOf(cl)})
+			}
 		}
 	}
+	c13SiblingDelegates(c, typs, delegates)
 	for k, v := range errInReply {
 		c.Exception(k, v)
 	}
@@ -1064,4 +1072,80 @@ func c13Scan(c *eng.Ctx) {
 			c.Prov(f, "view collected", ck, ck.Common().Args[1], `^param:view$`)
 		}
 	}
+}
+
+// ---------- C13.2 sibling agreement on the wrapped store
+type c13Delegate struct {
+	fn   *ssa.Function
+	call ssa.CallInstruction
+	path string
+}
+
+// c13DelegateOf renders the store a delegated operation is invoked on as an
+// access path from the layer's receiver ("·.txn"): the receiver parameter's
+// name is abstracted so that methods spelling it differently agree.
+func c13DelegateOf(cl ssa.CallInstruction) string {
+	cc := cl.Common()
+	var recv ssa.Value
+	if cc.IsInvoke() {
+		recv = cc.Value
+	} else if len(cc.Args) > 0 {
+		recv = cc.Args[0]
+	}
+	s := eng.Expr(recv)
+	if f := cl.Parent(); f != nil && len(f.Params) > 0 {
+		rn := f.Params[0].Name()
+		if s == rn {
+			return "·"
+		}
+		if strings.HasPrefix(s, rn+".") {
+			return "·" + s[len(rn):]
+		}
+	}
+	return s
+}
+
+// c13SiblingDelegates: within one layer type, Get/Put/Delete/List/ListPage
+// delegate to the same wrapped store (one access path from the receiver). A
+// layer whose operations legitimately address several stores is tabled with
+// the exact set it may use.
+func c13SiblingDelegates(c *eng.Ctx, typs []string, delegates map[string]map[string][]c13Delegate) {
+	c.Clause("R8", "C13.2")
+	n := 0
+	for _, t := range typs {
+		ops := delegates[t]
+		if len(ops) < 2 {
+			continue
+		}
+		// majority path = the layer's wrapped store
+		count := map[string]int{}
+		for _, m := range c13Ops {
+			seen := map[string]bool{}
+			for _, d := range ops[m] {
+				if !seen[d.path] {
+					seen[d.path] = true
+					count[d.path]++
+				}
+			}
+		}
+		var paths []string
+		for p := range count {
+			paths = append(paths, p)
+		}
+		sort.Slice(paths, func(i, j int) bool {
+			return count[paths[i]] > count[paths[j]] || count[paths[i]] == count[paths[j]] && paths[i] < paths[j]
+		})
+		n++
+		for _, m := range c13Ops {
+			for _, d := range ops[m] {
+				site := m + " delegates to the same wrapped store as its siblings"
+				if d.path == paths[0] {
+					c.OK(d.fn, site, d.call.Pos(), fmt.Sprintf("%s (used by %d of %d delegating operations of %s)", d.path, count[d.path], len(ops), t))
+				} else {
+					c.Violation(d.fn, site, d.call.Pos(), fmt.Sprintf("%s of %s is delegated to %s while its sibling operations delegate to %s: reads and writes of one layer would address different stores", m, t, d.path, paths[0]), nil)
+				}
+			}
+		}
+	}
+	c.Floor(nil, "layer types with at least two delegating operations", n, 15)
 }
